@@ -1,3 +1,18 @@
 (* drv_backend_clauses.ml — the specification clauses (Broker/BackendSpec.v, extracted)
-   evaluated on one observed step of the implementation *)
-let eval (prev : Backend.state) (op : Backend.op) (r : Backend.result) (next : Backend.state) : (string * bool) list = []
+   evaluated on one observed step of the implementation.  The clause names are the
+   ones printed after `propfail`. *)
+open Backend
+let eval (prev : state) (op : op) (r : result) (next : state) : (string * bool) list =
+  let retained_head = match op with
+    | ODequeue (c, temp) ->
+      (match session_of prev c with
+       | Some (_, s) -> (match (if temp then s.s_tq else s.s_sq) with m :: _ -> m.Packet.m_retain | [] -> false)
+       | None -> false)
+    | _ -> false in
+  [ ("targets", BackendSpec.targets_ok prev op r next);
+    ("live_copy", BackendSpec.live_copy_ok prev op r next);
+    ((if retained_head then "cap" else "qos"), BackendSpec.qos_ok prev op r next);
+    ("resub", BackendSpec.resub_ok prev op r next);
+    ("unsub", BackendSpec.unsub_ok prev op r next);
+    ("retained", BackendSpec.retained_ok prev op r next && BackendSpec.retained_wf next);
+    ("replay", BackendSpec.replay_ok prev op r next) ]
